@@ -1,5 +1,17 @@
 # -*- coding: utf-8 -*-
-"""C12 - logical functions are truth-functional; type predicates classify values"""
+"""C12 - logical functions are truth-functional; type predicates classify values
+
+case kinds (every case is compared with the Lean model):
+  tf      AND/OR/XOR on tuples of logicals / numbers / blanks, flat or nested in arrays          (oracle)
+  not     NOT on a pool value                                                                     (oracle)
+  if, ifs, switch   condition/value and target/case/result lists                                  (oracle)
+  err     an error value or error-producing expression in a tested condition / target position    (oracle)
+  pred    the ten predicates on one value: ten direct calls + ten formulas NAME(v)                (oracle)
+  pred1   one predicate, one direct call on a value                                               (model only)
+  arity   one direct call: unusual argument counts; N, T, ERROR.TYPE, IFERROR, IFNA on the pool   (model only)
+modes of tf/not/if/ifs/switch/err cases: fn (one direct call; generated as fn1 = one case per function), lit (formula
+with literals, array literals, empty slots), var (formula with arrays, blanks and errors as variables)
+"""
 import datetime
 import itertools
 import math
@@ -21,29 +33,85 @@ FUNCTIONS = ['hotxlfp.formulas.logic:_first_error', 'hotxlfp.formulas.logic:AND'
              'hotxlfp.formulas.information:ISNUMBER', 'hotxlfp.formulas.information:ISLOGICAL',
              'hotxlfp.formulas.information:NA', 'hotxlfp.formulas.information:N', 'hotxlfp.formulas.information:T',
              'hotxlfp.formulas.utils:iflatten', 'hotxlfp.formulas.utils:flatten']
-RULE = ('(a) AND/OR/XOR on every tuple of length 1..3 (thorough: 1..4) over {TRUE, FALSE, 0, 1, -2, 0.5, 0.0, blank} (complete) and seeded '
-        'tuples up to length 6 (now and then another int/float, -0.0, big ints), as separate arguments, regrouped into nested arrays (depth <= 3) given as array literals {..} and as '
-        'list-valued variables; NOT on every pool value.  (b) IF on every condition x two branch values; IFS / SWITCH on seeded '
-        'condition/value and case/result lists (<= 8 arguments; SWITCH targets and cases among numbers, text, logicals, blank; with and '
-        'without default).  (c) each of the nine error values (as error-valued variables) and the error-producing expressions 1/0 and '
-        'NA() in every condition position of AND/OR/XOR (flat and nested, one or two errors), NOT, IF, IFS (reached / not reached), '
-        'SWITCH target.  (d) ISNUMBER/ISTEXT/ISLOGICAL/ISBLANK/ISERROR/ISERR/ISNA/ISNONTEXT/ISEVEN/ISODD on a pool with values of every '
-        'type (ints, floats, logicals, text incl. empty and numeric-looking, blank, nine errors, dates, lists, foreign objects) and '
-        'ISEVEN/ISODD on ints and dyadic floats of both signs (enumerated grid + seeded large values).  Every case is evaluated by a '
-        'direct call of the registered Python function and through Parser.parse; a case is non-trivial when the oracle judged it.')
-TRUSTED = ['complex numbers, NaN and infinities are not modelled (ISNUMBER(1+2j) is TRUE, ISEVEN(inf) is #ERROR!)',
-           'Python `==` between foreign objects (SWITCH on host objects) is not modelled']
-ASSUMPTIONS = ['truth values: TRUE and non-zero numbers true; FALSE, zero (0, 0.0, -0.0) and blank false; text, dates and arrays as '
-               'conditions are outside the statement (the code uses Python truthiness)',
-               'SWITCH "equal": same-kind values are compared by value (1 and 1.0 are equal, text is case-sensitive), text never equals '
-               'a number or a logical; a logical against a number (Python: TRUE == 1) and a blank against a non-blank are not judged',
-               'SWITCH(t) and SWITCH(t, c) (no complete case/result pair) are #N/A in the code; the oracle judges lists with at least '
-               'one pair',
-               'ISERROR = ISERR or ISNA is read as a split: ISNA is TRUE exactly on #N/A, ISERR exactly on the other eight error values',
-               'ISODD returns the integer 1/0: "complementary" is judged on truth values (bool(ISODD(n)) = not ISEVEN(n))',
-               'the five-way partition is claimed for numbers, text, logicals, blanks and error values; dates, lists and foreign objects '
-               'must make all five FALSE; logicals given to ISEVEN/ISODD (treated as 1/0) and errors given to them are not judged',
-               'an error in an IF/IFS/SWITCH *value* position is returned like any other value (only tested conditions are constrained)']
+RULE = ('modes: fn = one direct call of the registered Python function (nested lists, None, XLError objects); lit = '
+        'Parser.parse of NAME(..) with literals, array literals {..}, blanks as empty slots (the predefined variable NULL '
+        'where the grammar rejects the slot), error values and dyadic floats as variables; var = Parser.parse with every '
+        'array, blank and error argument a variable.  (a) tf: AND/OR/XOR on every tuple of length 1..3 (thorough 1..4) over '
+        '{TRUE, FALSE, 0, 1, -2, 0.5, 0.0, blank} as separate arguments (fn only) and of length 1..2 (thorough 1..3) inside '
+        'one array (lit, var); 700 (thorough 12000) x scale seeded tuples of length 1..6 (12% of items from -0.0, 2.5, 7, '
+        '-1000000007, -1/1024, 2^-30, 2^65; 30% drawn all-true from {TRUE, 1, -2, 0.5} or all-false from {FALSE, 0, 0.0, '
+        'blank}, half of those with one item redrawn), regrouped into nested arrays (a sub-array opens with p 0.45, depth <= '
+        '3) in the three modes, plus the flat tuple as fn; not: NOT on the 8 pool values, three modes.  (b) if: 8 conditions '
+        'x 5 branch pairs (101/102, "yes"/"no", blank/TRUE, #REF!/0.5, {1,2}/"") in fn, lit; ifs: 500 (8000) x scale lists of '
+        '1..4 pairs, conditions from the pool or (p 0.5) its four false values, values 200+i, "v<i>" or one of 11 mixed '
+        'values (ints, text incl. "", logicals, blank, 0.5, #REF!, {1,2}), 10% with a trailing unpaired argument (<= 8 '
+        'arguments), one random mode; switch: 700 (12000) x scale lists, target and cases from one of 6 families (8 numbers '
+        'incl. 1/1.0, 0/0.0; 6 texts incl. "a"/"A", "", "1", "TRUE"; logicals; numbers+text; text+logicals; all+blank), 0..4 '
+        'pairs, with <= 3 pairs p 0.5 a default (30% the target itself), <= 9 arguments, one random mode, and 9 fixed lists '
+        '(SWITCH(1,2,3,1), SWITCH(1), SWITCH(1,1), 1.0 vs 1, "a" vs "A", repeated matching case) in fn, lit.  (c) err: each '
+        'of the nine error values (three modes) and the expressions 1/0 and NA() (lit only) as sole argument of '
+        'AND/OR/XOR/NOT, in IF(e,1,2), IFS(e,1), SWITCH(e,1,2), SWITCH(e,e,2,3), SWITCH(e), in every position of every {TRUE, '
+        'FALSE} tuple of length 2..3 for AND/OR/XOR (16), as IFS condition 0..3 with the earlier conditions all false '
+        '(reached) or one TRUE (not reached) (10 lists); 500 (8000) x scale seeded pool tuples of length 1..6 with one or (p '
+        '1/3) two errors, 70% regrouped (depth <= 3), one random mode.  (d) pred: '
+        'ISNUMBER/ISTEXT/ISLOGICAL/ISBLANK/ISERROR/ISERR/ISNA/ISNONTEXT/ISEVEN/ISODD, each by direct call and as formula '
+        'NAME(v) with v a variable, on a 45-value pool (7 ints incl. -2^65, 8 floats incl. 0.0, -0.0, 2^53, -1/1024, TRUE, '
+        'FALSE, 7 texts incl. "", " ", "1", "1.5", "TRUE", "#N/A", blank, nine errors, 3 dates, lists [1], [], ["a",[blank]], '
+        '5 foreign objects: object, instance, dict, bytes, frozenset), ints -12..12, k/8 for k = -48..48, 300 (6000) x scale '
+        'seeded numbers (ints in +-10^20, m/2^e with |m| < 2^40, e < 30, integer-valued floats m*2^e with |m| < 2^52, e < '
+        '200, odd/2^e with odd < 2^21, e in 1..59).  (e) model comparison only (oracle silent, never non-trivial): pred1 = '
+        'each predicate as one direct call on the 45 pool values and 30% of the seeded numbers; arity = 269 direct calls: '
+        'zero, missing and surplus arguments of the logical functions, TRUE, FALSE, NA, the ten predicates, N, T, ERROR.TYPE, '
+        'IFERROR, IFNA, and N, T, ERROR.TYPE (not on the dict), IFERROR(v,777), IFNA(v,777) on the 45 pool values.  every '
+        'case is compared with the Lean model (a single direct call as fn request, else the formulas of the case as one '
+        'c04.batch; of a pred case only the ten formulas); the oracle judges tf, not, if, ifs, switch, err, pred.  '
+        'non-trivial (distinct cases) = the oracle decided an outcome for some function of the case: always for those kinds '
+        'except switch lists without a complete pair or whose scan meets a logical/number or blank/non-blank comparison '
+        'before a match.  about 12800 cases quick, 169500 thorough at scale 1; scale 5 in quick when a fingerprinted function '
+        'changed or the Lean build broke; search() (proof or correspondence broken, no oracle failure): the whole family '
+        'redrawn at scale 6, oracle only, stops at the first failure.  no time or step budget, nothing skipped.')
+TRUSTED = ['complex numbers, NaN and infinities are not modelled and not generated (ISNUMBER(1+2j) is TRUE, ISEVEN(inf) is '
+           '#ERROR!)',
+           'Python `==` between foreign objects (SWITCH on host objects) is not modelled and not generated',
+           'rendering of tokens by the plugin (val / text / seq_text): the formula text denotes the value of the token (TRUE, '
+           'FALSE, NULL as the predefined variables of Parser; -2, -0.0, 2^65 as literal text; blanks as empty slots where '
+           'the grammar takes them)',
+           'direct(): formulas.get_for(NAME)(*args) stands for Parser.call_function; an exception is mapped to an error code '
+           'by error.from_message (unknown text: #ERROR!); one Parser serves all formulas, its variables are set per formula '
+           'and restored',
+           'model comparison (fx.value_matches / record_matches): exact type and value for ints, logicals, text, errors, '
+           'blanks, lists element-wise, floats within 4 ulps, dates within a few us; a model answer `(o ..)` (no opinion) '
+           'counts as agreement; a raised exception must meet `(raise tag)`.  the oracle uses no tolerance (same type, same '
+           'value, same sign of zero)',
+           'formula cases run through the whole parser model (c04.batch); its tie to the grammar is the subject of C04 / C05']
+ASSUMPTIONS = ['truth values: TRUE and non-zero numbers true; FALSE, zero (0, 0.0, -0.0) and blank false; text, dates and '
+               'arrays as conditions are outside the statement (the code uses Python truthiness) and are not generated',
+               'results are judged exactly: AND/OR/XOR/NOT must answer a logical (not 1/0); IF/IFS/SWITCH must return the '
+               'chosen argument with its type and value (1 is neither 1.0 nor TRUE, 0.0 is not -0.0, lists element-wise); the '
+               'same expectation holds for the direct call and for Parser.parse (the statement observes the latter)',
+               '"yields that error" = the same error code, whether returned as an error value, raised by the direct call or '
+               'reported in the error field of Parser.parse; with several error items AND/OR/XOR must give the first in '
+               'depth-first left-to-right order of the flattened arguments, whatever TRUE / FALSE items stand before or after '
+               'it',
+               'IFS: an error condition is the result only when every earlier condition is false; after a true condition it '
+               'must not surface; a trailing unpaired argument is ignored; no true condition gives #N/A',
+               'SWITCH "equal": same-kind values are compared by value (1 and 1.0 are equal, text is case-sensitive, blank '
+               'equals blank), text never equals a number or a logical; an error-valued case never equals a non-error target; '
+               'a logical against a number (Python: TRUE == 1) and a blank against a non-blank are not judged',
+               'SWITCH(t) and SWITCH(t, c) (no complete case/result pair) are #N/A in the code; the oracle judges lists with '
+               'at least one pair, and any list whose target is an error (SWITCH(e) = e); the odd last argument is the '
+               'default and is never compared with the target (SWITCH(1,2,3,1) = 1)',
+               'ISERROR = ISERR or ISNA is read as a split: ISNA is TRUE exactly on #N/A, ISERR exactly on the other eight '
+               'error values',
+               'ISEVEN must answer a logical; ISODD returns the integer 1/0 (a logical is accepted too): "complementary" is '
+               'judged on truth values (bool(ISODD(n)) = not ISEVEN(n)); the integer part is truncation toward zero of the '
+               'exact value of the float (-2.5 has integer part -2)',
+               'the five-way partition is claimed for numbers, text, logicals, blanks and error values, each classifier '
+               'answering a logical on every value; dates, lists and foreign objects must make all five FALSE; ISEVEN/ISODD '
+               'must be #VALUE! on text (also "1", "1.5"), blanks, dates, lists and foreign objects; logicals given to them '
+               '(treated as 1/0) and errors given to them are not judged',
+               'an error in an IF/IFS/SWITCH *value* position is returned like any other value (only tested conditions are '
+               'constrained)']
 EXHAUSTIVE = {'quick': False, 'thorough': False}
 
 CODES = {'null': '#NULL!', 'div0': '#DIV/0!', 'value': '#VALUE!', 'ref': '#REF!', 'name': '#NAME?', 'num': '#NUM!',
@@ -565,7 +633,7 @@ PRED_POOL = (['0', '1', '-2', '7', 'i:-7', 'i:1000000007', 'i:-36893488147419103
 
 def tf_cases(rng, thorough, scale):
     out = []
-    # complete: every tuple of length 1..3 as separate arguments (direct call), and through the parser
+    # complete: every tuple of length 1..3 (thorough: 1..4) as separate arguments (direct calls only)
     for n in ((1, 2, 3, 4) if thorough else (1, 2, 3)):
         for tup in itertools.product(POOL, repeat=n):
             out.append({'kind': 'tf', 'fns': TF, 'mode': 'fn1', 'args': list(tup)})
